@@ -284,6 +284,71 @@ class GatherS2(ScatterS2):
         return loc
 
 
+
+
+class GatherS1Failed(GatherS1):
+    """the future handed to gather failed: the failure reaches whoever awaits update(), nothing is emitted and the element is NOT
+    released (C04/C16: a failed element never reaches count 0, i.e. is never checkpointed)"""
+    name = 'dask.gather.update@1[future failed]'
+    props = ['C20', 'C04', 'C16']
+
+    def resume(self, I, loc):
+        return Resume(exc=VExc('UserError', payload='remote'))
+
+    def clauses(self):
+        return [Clause('C16.failed_future_keeps_the_hold_and_emits_nothing', ['C16', 'C04', 'C20'], when='raise',
+                       text='delta == 0 and emitted == []')]
+
+    def cover(self, outcomes):
+        return [('the failure propagates', any(o.kind == 'raise' for o in outcomes))]
+
+
+class GatherS2Failed(GatherS2):
+    """the downstream emission failed: the hold stays"""
+    name = 'dask.gather.update@2[downstream failed]'
+    props = ['C20', 'C04', 'C16']
+
+    def resume(self, I, loc):
+        return Resume(exc=VExc('DownstreamError'))
+
+    def clauses(self):
+        return [Clause('C16.failed_downstream_keeps_the_hold', ['C16', 'C04', 'C20'], when='raise:DownstreamError',
+                       text='delta == 0 and emitted == []')]
+
+    def cover(self, outcomes):
+        return [('the failure propagates', any(o.kind == 'raise' for o in outcomes))]
+
+
+class ScatterS1Failed(ScatterS1):
+    name = 'scatter.update@1[scatter failed]'
+    props = ['C20', 'C04', 'C16']
+
+    def resume(self, I, loc):
+        return Resume(exc=VExc('UserError', payload='remote'))
+
+    def clauses(self):
+        return [Clause('C16.failed_scatter_keeps_the_hold_and_emits_nothing', ['C16', 'C04', 'C20'], when='raise',
+                       text='delta == 0 and emitted == []')]
+
+    def cover(self, outcomes):
+        return [('the failure propagates', any(o.kind == 'raise' for o in outcomes))]
+
+
+class ScatterS2Failed(ScatterS2):
+    name = 'scatter.update@2[downstream failed]'
+    props = ['C20', 'C04', 'C16']
+
+    def resume(self, I, loc):
+        return Resume(exc=VExc('DownstreamError'))
+
+    def clauses(self):
+        return [Clause('C16.failed_downstream_keeps_the_hold', ['C16', 'C04', 'C20'], when='raise:DownstreamError',
+                       text='delta == 0 and emitted == []')]
+
+    def cover(self, outcomes):
+        return [('the failure propagates', any(o.kind == 'raise' for o in outcomes))]
+
+
 # --------------------------------------------------------------------------- the mixin classes inherit the core update
 class DaskMixinsInheritCore(Contract):
     """Syntactic obligation: every class  X(DaskStream, core.X)  of dask.py has an empty body, and DaskStream does not
@@ -320,5 +385,5 @@ class DaskMixinsInheritCore(Contract):
         return res, {'paths': 0, 'seconds': 0, 'branch_checks': 0, 'outcomes': [], 'dropped': [], 'cover': []}
 
 
-ALL = [DaskMap, DaskStarmap, DaskAccumulate, ScatterS0, ScatterS1, ScatterS2, GatherS0, GatherS1, GatherS2,
+ALL = [DaskMap, DaskStarmap, DaskAccumulate, ScatterS0, ScatterS1, ScatterS2, GatherS0, GatherS1, GatherS2, GatherS1Failed, GatherS2Failed, ScatterS1Failed, ScatterS2Failed,
        DaskMixinsInheritCore]
